@@ -213,6 +213,7 @@ Proof.
            destruct p as [|y p']; [unfold len in Hp; cbn in Hp; lia|].
            destruct n; [lia|]. cbn [firstn length]. lia.
     + assert (Hne : cn_input (w_rx w) <> []) by (rewrite Ein; discriminate).
+      rewrite <- Ein in Hsent.
       eexists. split; [|split; [|split]].
       * unfold step. rewrite (conn_read_input (w_rx w) (w_wire w) n rnd Hhand Hne Hpre). cbn [bind]. reflexivity.
       * exists recs, rx_end. cbn [w_wire w_rx w_tx w_sent w_got with_in cn_vers cn_in cn_input cn_hand].
